@@ -14,6 +14,7 @@ S9  array reads take the element stride from the array's own type, not from the 
 S10 either check_or_constrain_* never re-types identifiers / elements / fields, or the lowering adjusts every number to its type's width
 S8  cross-reference: array outputs are decoded with the element count of the type (C09-L7)
 S11 cross-reference: resolved const definitions are visible to later ones (C12-K6)
+S12 the number type stored in a Range node (which the lowering sizes the elements with) follows the re-typing of the range
 """
 from .. import mir
 from ..core import AnchorMissing, Finding, RuleResult
@@ -462,5 +463,47 @@ def rule_s11(ctx):
     return res
 
 
+def rule_s12(ctx):
+    """A range is lowered element by element; the width of an element must be the width of the element type of the node's type."""
+    from . import C02
+    res = RuleResult("S12", "the number type a range is lowered with follows the type of the range expression")
+    body = ctx.body(C02.fn_of(ctx, C02.EXPR_COMPILE)["id"])
+    node_driven = False
+    arm = body.pruned_succ({(SELF1, ("inner",)): "Range"})
+    live = set(body.reachable([0], succ=arm))
+    n = 0
+    for b, t in body.calls():
+        if b not in live or mir.last_seg(mir.callee(t) or "") != "size_in_bits_for_defs":
+            continue
+        # only calls that cannot be reached under another variant belong to the Range arm
+        srcs = body.deep_sources(t["args"][0], depth=3)
+        if any(r == SELF1 and "as Range" in p for (r, p) in srcs):
+            node_driven = True
+            n += 1
+    if not node_driven:
+        # the arm takes the width from somewhere else (self.ty): nothing to keep in step
+        res.ok({"verdict": "the Range arm of the lowering does not take the element width from the node"})
+        return res
+    cb = ctx.body("check::constrain_type")
+    writes = []
+    for b, blk in enumerate(cb.blocks):
+        if blk["cleanup"]:
+            continue
+        for st in blk["stmts"]:
+            if st["k"] != "assign" or not st["place"]["p"] or st["place"]["p"][0]["k"] != "deref":
+                continue
+            roots = cb.trace({"l": st["place"]["l"], "p": [], "ty": ""}, through={})
+            if any(r == SELF1 and "as Range" in p and p[-1] == "2" for (r, p) in roots):
+                val = cb.trace_operand(st["rv"]["op"]) if st["rv"]["k"] == "use" else set()
+                writes.append((b, st, any(r == ("arg", 2) and "as Unsigned" in p for (r, p) in val)))
+    if any(w[2] for w in writes):
+        res.ok({"lowering": "element width from the number type stored in the Range node", "checker": "constrain_type stores the expected element type in the node (line %d)" % [w for w in writes if w[2]][0][1]["sp"][1]})
+    else:
+        res.bad(Finding("S12", "check::constrain_type", "an untyped range keeps its 32-bit number type under a re-typed array type",
+                        "the lowering takes the element width of a range from the number type stored in the node, and constrain_type re-types the array type of an untyped range "
+                        "(`0..3` as [u8; 3]) without storing the expected element type in the node: 96 wires under a type of 24 bits", ctx.fn("check::constrain_type")["sp"]))
+    return res
+
+
 def run(ctx):
-    return ctx.run_rules([rule_s1, rule_s2, rule_s3, rule_s4, rule_s5, rule_s6, rule_s7, rule_s8, rule_s9, rule_s10, rule_s11])
+    return ctx.run_rules([rule_s1, rule_s2, rule_s3, rule_s4, rule_s5, rule_s6, rule_s7, rule_s8, rule_s9, rule_s10, rule_s11, rule_s12])
